@@ -2,11 +2,11 @@
 From Coq Require Import String.
 From Bio Require Import Base.
 From Bio.Corr Require Import SeqCorr FastaCorr FastqCorr SamCorr BedCorr NewickCorr AlignCorr
-  TrieCorr RegionsCorr MashCorr SmtextCorr.
+  TrieCorr RegionsCorr MashCorr SmtextCorr StreamCorr TotalCorr.
 
 Definition corr_all : list (string * (val -> val)) :=
   corr_seq ++ corr_fasta ++ corr_fastq ++ corr_sam ++ corr_bed ++ corr_newick ++ corr_align
-  ++ corr_trie ++ corr_regions ++ corr_mash ++ corr_smtext.
+  ++ corr_trie ++ corr_regions ++ corr_mash ++ corr_smtext ++ corr_stream ++ corr_total.
 
 Definition v_unknown_kind : val := VL [VI 98].
 
